@@ -24,18 +24,6 @@ theorem sites_covered : uncovered Xt.Generated.sites covered = [] := by decide
 /-- …restricted to the library (C04's scope: `translate_*`). -/
 theorem sites_covered_library : uncovered (Xt.Generated.sites.filter isLibrary) covered = [] := by decide
 
-/-- Every site that exists because of `unsafe` is accounted for by a
-precondition theorem or a `delegated:` tag — not by any other reason tag. -/
-theorem unsafe_sites_covered :
-    uncovered (Xt.Generated.sites.filter isUnsafeKind) (covered.filter isUnsafeAccount) = [] := by decide
-
-/-- `unsafeAccounts` holds only theorem names and `delegated:` tags. -/
-theorem unsafe_accounts_wellformed :
-    unsafeAccounts.all (fun n => hasPrefix "Xt." n || hasPrefix "delegated:" n) = true := by decide
-
-/-- The sites of the files C17 is about (parser.rs, chunker.rs, encoding.rs). -/
-theorem c17_sites_covered : uncovered (Xt.Generated.sites.filter isC17) covered = [] := by decide
-
 /-- Non-vacuity: an unaccounted site is detected — one more `unwrap` in
 `Chunker::next` than today, or an index expression in `try_read_length` (where
 today there is a checked `.get(..)`). -/
@@ -48,14 +36,7 @@ function of main.rs, a second one is detected. -/
 example : uncovered [("src/main.rs", "try_mmap", "unsafe_block", 1)] covered = [] := by decide
 example : uncovered [("src/main.rs", "try_mmap", "unsafe_block", 1), ("src/main.rs", "InputPath::open", "unsafe_block", 1)] covered
     = [("src/main.rs", "try_mmap", "unsafe_block", 1), ("src/main.rs", "InputPath::open", "unsafe_block", 1)] := by decide
-/-- …and an unsafe site explained by a tag that is not `delegated:` is rejected. -/
-example : uncovered [("src/yaml/chunker/parser.rs", "Parser::new", "panic", 1)] (covered.filter isUnsafeAccount)
-    = [("src/yaml/chunker/parser.rs", "Parser::new", "panic", 1)] := by decide
-
 #print axioms sites_covered
 #print axioms sites_covered_library
-#print axioms unsafe_sites_covered
-#print axioms unsafe_accounts_wellformed
-#print axioms c17_sites_covered
 
 end Xt.Props.C04Sites
